@@ -86,7 +86,7 @@ pub fn phases(prop: &str, tier: Tier) -> Vec<Phase> {
             Phase { name: "corrupt", units: if q { 128 } else { 30_000 }, seeded: true },
         ],
         "C13" => vec![
-            Phase { name: "rfault-large", units: 8, seeded: false },
+            Phase { name: if q { "rfault-large-coarse" } else { "rfault-large" }, units: 8, seeded: false },
             Phase { name: "rfault", units: if q { 200 } else { 40_000 }, seeded: true },
         ],
         _ => vec![],
@@ -184,7 +184,8 @@ pub fn run_unit(prop: &str, phase: &str, unit: u64, seed: u64, _tier: Tier, ctx:
         "wfault" => crate::fam_wfault::unit(derive(seed, "C12/wfault", unit), ctx, ctl),
         "corrupt" => crate::fam_corrupt::unit(derive(seed, "C07/corrupt", unit), ctx, ctl),
         "ladder" => crate::fam_corrupt::ladder_unit(unit, ctx, ctl),
-        "rfault-large" => crate::fam_rfault::large_unit(unit, ctx, ctl),
+        "rfault-large" => crate::fam_rfault::large_unit(unit, false, ctx, ctl),
+        "rfault-large-coarse" => crate::fam_rfault::large_unit(unit, true, ctx, ctl),
         "rfault" => crate::fam_rfault::unit(derive(seed, "C13/rfault", unit), ctx, ctl),
         _ => {}
     }
@@ -273,7 +274,7 @@ pub fn meta(prop: &str) -> PropMeta {
         },
         "C13" => PropMeta {
             level: "fault_enumeration",
-            rule: "one unit = one seeded valid file from the real writer (every type, 1..4 tagged shapes); every truncation length 0..=len of the .shp (read with and without index) and of the .shx; for each of 3 reader stacks (Direct, small BufReader, BufReader(8192)) x {with, without index}: every operation k of an undisturbed full traversal (open, iterate, read_nth every i) failed one-shot with a rotating error kind and with EINTR; every short-read chunk size x {no EINTR, EINTR every 2nd, every 5th call}; 8 seeded mixed schedules; the same fault sweeps on two re-laid-out versions of each file (physical order != index order, so that the indexed traversal seeks); rfault-large: 8 files whose middle record has a part of 1025..2000 points or 1030 parts, with strides away from record boundaries. distinct = distinct (file, fault/truncation, route) triples by hash.",
+            rule: "one unit = one seeded valid file from the real writer (every type, 1..4 tagged shapes); every truncation length 0..=len of the .shp (read with and without index) and of the .shx; for each of 3 reader stacks (Direct, small BufReader, BufReader(8192)) x {with, without index}: every operation k of an undisturbed full traversal (open, iterate, read_nth every i) failed one-shot with a rotating error kind and with EINTR; every short-read chunk size x {no EINTR, EINTR every 2nd, every 5th call}; 8 seeded mixed schedules; the same fault sweeps on two re-laid-out versions of each file (physical order != index order, so that the indexed traversal seeks); rfault-large: 8 files whose middle record has a part of 1025..2000 points or 1030 parts, with strides away from record boundaries (11 bytes / 37 operations; 101 / 409 in the quick tier). distinct = distinct (file, fault/truncation, route) triples by hash.",
             explanation: "Every reader call of the traversal is bracketed with its device events. Oracles: only genuine shapes at their positions; records wholly inside the retained bytes are returned; the cut record is Error::IoError; a hard source failure surfaces from the call in progress with that error; short reads / EINTR leave every result identical to the undisturbed traversal.",
             exhaustive: false,
         },
